@@ -3,23 +3,41 @@ package main
 // rest_fault.go — T1 facts for C14 under a failing store (lean/Ibx/Gen/RestFault.lean, pinned by lean/Ibx/Tie/RestFault.lean).
 //
 // For the wrapper web.Handler.ServeHTTP, the six store-facing methods of message.StoreManager and the ten mailbox handlers of pkg/rest and
-// pkg/webui, the ERROR-PATH SKELETON of the function body: the fallible calls (result type contains `error`) and the writes to the
-// http.ResponseWriter, in source order, each with what the code does with the error:
+// pkg/webui, the ERROR-PATH SKELETON of the function: the fallible calls (result type contains `error`) and the writes to the
+// http.ResponseWriter, in execution order, each with what the code does with the error:
 //
-//     <callee> ? <cond> => <action> ; <cond> => <action> …      the if / else-if / tagless-switch tests that follow the call and mention its
-//                                                              error (`err`) or its other result (`res`)
-//     <callee> ? tail                                          `return <call>` — the error is handed on as it is
-//     <callee> ? ignored                                       `_ = <call>` / a bare call statement / a deferred call
-//     <callee> ? then return-err                               `…, err = <call>` followed by `return err`
+//     <callee> ? <cond> => <action> ; <cond> => <action> …      the DECISION the code makes on the call's error (`err`) and its other result
+//                                                              (`res`), printed as a first-match rule list
+//     <callee> ? tail                                          the call's results ARE the function's results (`return <call>`, or assigned and
+//                                                              returned untested)
+//     <callee> ? ignored                                       the error is never looked at (`_ = <call>`, a bare call statement)
+//     <callee> ? deferred                                      a deferred fallible call
+//     <callee> ? then return-err                               the error is returned untested, the other results are dropped
+//     <callee> ? err == nil => assign ; else => assign         the error is tested, but every outcome goes on in the same way
 //     w:<callee>                                               a statement that hands the ResponseWriter to <callee> (w.Header() is not a write)
+//     if … [else …] end                                        a decision on anything else (a flag of the decoded body, a bounds test)
 //
+// THE FACT DESCRIBES STRUCTURE, NOT SPELLING.  The function is EXECUTED symbolically, path by path (rfX):
+//   * a local carries the value it has on the path: `nil`, storage.ErrNotExist, the error / the i-th other result of a call made on the path, a
+//     wrapped error (fmt.Errorf / errors.New), the ResponseWriter, the *web.Context, true / false, or something opaque;
+//   * a call of an UNEXPORTED function or method of the same package (or of an exported one that is handed the ResponseWriter or the Context) is
+//     executed in place: its parameters are the caller's values, each of its `return`s continues in the caller with the values it returns — so
+//     a prefix extracted into a helper, or a reply moved into one, leaves no trace;
+//   * a condition is decided atom by atom (`err == nil`, `err == ErrNotExist`, errors.Is(err, ErrNotExist), `res == nil`); `&&`, `||`, `!`, nested
+//     ifs, else-if chains, guard clauses, tagged and tagless switches are the same thing; an atom already decided on the path decides nothing;
+//   * the result is a TREE of calls, decisions and exits.  What is printed for a call is computed from the tree: for each of the cells
+//     (err ∈ {nil, ErrNotExist, an error wrapping it, another error}) × (res ∈ {nil, non-nil}, when res is tested) the rest of the function is
+//     specialised to the cell; cells whose rest is that of the success cell (err = nil, res ≠ nil) go on, the others must be straight-line ACTIONS
+//     (`http.NotFound+return-nil`, `return-wrapped`, `http.Error:500+return` …); the table is printed by a fixed greedy procedure (rfRules), so
+//     two spellings of the same table give the same text and two different tables never do;
+//   * an opaque decision is printed without its condition and polarity: identical branches vanish, a common tail is factored out
+//     (`if c {A}; S` = `if !c {S; return}; A; S`), a branch that leaves the function is the guard (`if c {return X}; B` = `if c {return X} else {B}`).
 // The package is TYPE-CHECKED (go/types, the loader of entry.go), so a callee is named by the OBJECT it resolves to: `Manager.X` = a method of the
 // interface message.Manager, `Store.X` / `Message.X` = methods of storage.Store / storage.Message, `handler` = a call of a value of type
-// web.Handler, `pkg.F` = a package-level function; the ResponseWriter is "the parameter of type net/http.ResponseWriter", the error and result
-// variables are the objects assigned by the call, storage.ErrNotExist is the package-level variable of that name in pkg/storage, 500 is the value
-// of the constant handed to http.Error.  Conditions are printed with `err`, `res`, `ErrNotExist`, `nil` and the operators; errors.Is(err, X) as
-// `Is(err,X)`; anything else as `?`.  Unexported / exported helpers OF THE SAME PACKAGE that receive the ResponseWriter or the *web.Context are
-// followed (their skeleton is spliced in).  A shape that is not recognised is emitted as `unknown`, which no tie theorem accepts.
+// web.Handler, `pkg.F` = a package-level function; storage.ErrNotExist is the package-level variable of that name in pkg/storage, 500 is the value
+// of the constant handed to http.Error.  Nothing is guessed: a statement the executor does not execute (loops that contain calls of interest, go,
+// select, goto, break, fallthrough, closures touching the ResponseWriter, a ResponseWriter stored in a literal, calls of interest nested inside
+// other expressions, a non-action outcome of a failed call …) becomes `unknown`, which no tie theorem accepts.
 
 import (
 	"fmt"
@@ -27,22 +45,19 @@ import (
 	"go/token"
 	"go/types"
 	"os"
+	"sort"
 	"strings"
 )
 
 func init() { extractors = append(extractors, extractRestFault) }
 
-type rfCtx struct {
-	w     *entWorld
-	p     *entPkg
-	rw    map[types.Object]bool // the ResponseWriter parameter(s) in scope
-	ctx   map[types.Object]bool // *web.Context parameters in scope
-	recv  types.Object          // receiver of type web.Handler (func value), if any
-	depth int
-	out   []string
-}
+// ------------------------------------------------------------------------------------------------------------------ naming (go/types)
 
-func (c *rfCtx) emit(s string) { c.out = append(c.out, s) }
+type rfCtx struct {
+	w    *entWorld
+	p    *entPkg
+	recv types.Object // receiver of type web.Handler (func value), if any
+}
 
 func rfIsError(t types.Type) bool {
 	if t == nil {
@@ -67,12 +82,13 @@ func (c *rfCtx) fallible(ce *ast.CallExpr) (int, int, bool) {
 				return i, t.Len(), true
 			}
 		}
+		return 0, t.Len(), false
 	default:
 		if rfIsError(t) {
 			return 0, 1, true
 		}
 	}
-	return 0, 0, false
+	return 0, 1, false
 }
 
 func rfNamed(t types.Type) *types.Named {
@@ -83,16 +99,19 @@ func rfNamed(t types.Type) *types.Named {
 	return n
 }
 
+func rfUnparen(e ast.Expr) ast.Expr {
+	for {
+		p, ok := e.(*ast.ParenExpr)
+		if !ok {
+			return e
+		}
+		e = p.X
+	}
+}
+
 // callee: the name of what a call resolves to
 func (c *rfCtx) callee(ce *ast.CallExpr) string {
-	fun := ce.Fun
-	for {
-		if p, ok := fun.(*ast.ParenExpr); ok {
-			fun = p.X
-			continue
-		}
-		break
-	}
+	fun := rfUnparen(ce.Fun)
 	switch f := fun.(type) {
 	case *ast.Ident:
 		obj := c.p.info.Uses[f]
@@ -155,6 +174,8 @@ func (c *rfCtx) callee(ce *ast.CallExpr) string {
 			}
 		}
 		return "unknown"
+	case *ast.ArrayType, *ast.MapType, *ast.InterfaceType, *ast.StarExpr, *ast.FuncType, *ast.ChanType:
+		return "conv"
 	}
 	return "unknown"
 }
@@ -172,14 +193,7 @@ func rfPkgName(path string) string {
 }
 
 func (c *rfCtx) objOf(e ast.Expr) types.Object {
-	for {
-		if p, ok := e.(*ast.ParenExpr); ok {
-			e = p.X
-			continue
-		}
-		break
-	}
-	id, ok := e.(*ast.Ident)
+	id, ok := rfUnparen(e).(*ast.Ident)
 	if !ok {
 		return nil
 	}
@@ -213,118 +227,316 @@ func rfIsNilIdent(c *rfCtx, e ast.Expr) bool {
 	return isNil
 }
 
-// cond: a condition printed over err / res / ErrNotExist / nil; mentions reports whether err or res occur in it
-func (c *rfCtx) cond(e ast.Expr, errObj types.Object, resObjs map[types.Object]bool) (string, bool) {
-	switch v := e.(type) {
-	case *ast.ParenExpr:
-		return c.cond(v.X, errObj, resObjs)
-	case *ast.BinaryExpr:
-		l, lm := c.cond(v.X, errObj, resObjs)
-		r, rm := c.cond(v.Y, errObj, resObjs)
-		switch v.Op {
-		case token.LAND, token.LOR:
-			return l + " " + v.Op.String() + " " + r, lm || rm
-		case token.EQL, token.NEQ:
-			return l + " " + v.Op.String() + " " + r, lm || rm
-		}
-		return "?", lm || rm
-	case *ast.UnaryExpr:
-		if v.Op == token.NOT {
-			s, m := c.cond(v.X, errObj, resObjs)
-			return "!(" + s + ")", m
-		}
-		return "?", false
-	case *ast.Ident:
-		if rfIsNilIdent(c, v) {
-			return "nil", false
-		}
-		o := c.objOf(v)
-		if o != nil && o == errObj {
-			return "err", true
-		}
-		if o != nil && resObjs[o] {
-			return "res", true
-		}
-		if c.isErrNotExist(v) {
-			return "ErrNotExist", false
-		}
-		return "?", false
-	case *ast.SelectorExpr:
-		if c.isErrNotExist(v) {
-			return "ErrNotExist", false
-		}
-		return "?", false
-	case *ast.CallExpr:
-		if c.callee(v) == "errors.Is" && len(v.Args) == 2 {
-			a, am := c.cond(v.Args[0], errObj, resObjs)
-			b, _ := c.cond(v.Args[1], errObj, resObjs)
-			return "Is(" + a + "," + b + ")", am
-		}
-		return "?", false
-	}
-	return "?", false
+func rfIsRW(t types.Type) bool {
+	n := rfNamed(t)
+	return n != nil && n.Obj().Pkg() != nil && n.Obj().Pkg().Path() == "net/http" && n.Obj().Name() == "ResponseWriter"
 }
 
-// passesW: the call hands the ResponseWriter on (argument, or receiver of a method other than Header)
-func (c *rfCtx) passesW(ce *ast.CallExpr) bool {
+func rfIsWebContext(t types.Type) bool {
+	n := rfNamed(t)
+	return n != nil && n.Obj().Pkg() != nil && strings.HasSuffix(n.Obj().Pkg().Path(), "/pkg/server/web") && n.Obj().Name() == "Context"
+}
+
+func rfIsWrap(name string) bool { return name == "fmt.Errorf" || name == "errors.New" }
+
+// ------------------------------------------------------------------------------------------------------------------ symbolic values, states
+
+// rfV: what a local is on a path
+type rfV struct {
+	k    string // nil | ne (storage.ErrNotExist) | err | res | wrapped | w | ctx | true | false | opq
+	call string // err / res: the call (site) it is a result of
+	idx  int    // res: which result
+}
+
+var rfOpq = rfV{k: "opq"}
+
+func (v rfV) String() string {
+	switch v.k {
+	case "err":
+		return "err@" + v.call
+	case "res":
+		return fmt.Sprintf("res%d@%s", v.idx, v.call)
+	}
+	return v.k
+}
+
+const (
+	rfENil = 1 << iota
+	rfENE
+	rfEWrapNE
+	rfEOther
+	rfEAll = rfENil | rfENE | rfEWrapNE | rfEOther
+)
+const (
+	rfRNil = 1 << iota
+	rfRNon
+	rfRAll = rfRNil | rfRNon
+)
+
+// rfCell: what is known on a path about the results of one call: the class of its error, nil-ness of its other results
+type rfCell struct {
+	e uint8
+	r map[int]uint8
+}
+
+type rfSt struct {
+	vars map[types.Object]rfV
+	cons map[string]rfCell
+}
+
+func (s *rfSt) clone() *rfSt {
+	n := &rfSt{vars: make(map[types.Object]rfV, len(s.vars)), cons: make(map[string]rfCell, len(s.cons))}
+	for k, v := range s.vars {
+		n.vars[k] = v
+	}
+	for k, c := range s.cons {
+		r := make(map[int]uint8, len(c.r))
+		for i, m := range c.r {
+			r[i] = m
+		}
+		n.cons[k] = rfCell{e: c.e, r: r}
+	}
+	return n
+}
+
+// rfAtom: a test on a result of a call
+type rfAtom struct {
+	call string
+	what string // nil (err == nil) | ne (err == ErrNotExist) | is (errors.Is(err, ErrNotExist)) | resnil (res_idx == nil)
+	idx  int
+}
+
+func (a rfAtom) mask() uint8 {
+	switch a.what {
+	case "nil":
+		return rfENil
+	case "ne":
+		return rfENE
+	case "is":
+		return rfENE | rfEWrapNE
+	}
+	return rfRNil
+}
+
+// rfN: a node of the execution tree
+type rfN struct {
+	kind string // call | dec | opq | exit | unknown
+	// call
+	id, name     string
+	isW, fall    bool
+	nres, errIdx int
+	deferred     bool
+	next         *rfN
+	// dec / opq
+	atom rfAtom
+	t, f *rfN
+	// exit
+	vals []rfV
+	// unknown
+	why string
+	s   string // memo of ser()
+}
+
+func (n *rfN) ser() string {
+	if n.s != "" {
+		return n.s
+	}
+	var s string
+	switch n.kind {
+	case "call":
+		s = fmt.Sprintf("C[%s|%s|%v%v%v]%s", n.name, n.id, n.isW, n.fall, n.deferred, n.next.ser())
+	case "dec":
+		// a decision both of whose branches are the same tree decides nothing (a branch that only logs, assigns, or calls something that
+		// shows nowhere): it is the tree of its branches
+		if a, b := n.t.ser(), n.f.ser(); a == b {
+			s = a
+		} else {
+			s = fmt.Sprintf("D[%s,%s%d]{%s}{%s}", n.atom.call, n.atom.what, n.atom.idx, a, b)
+		}
+	case "opq":
+		a, b := n.t.ser(), n.f.ser()
+		if b < a {
+			a, b = b, a
+		}
+		if a == b {
+			s = a
+		} else {
+			s = "O{" + a + "}{" + b + "}"
+		}
+	case "exit":
+		p := []string{}
+		for _, v := range n.vals {
+			p = append(p, v.String())
+		}
+		s = "X[" + strings.Join(p, ",") + "]"
+	default:
+		s = "U[" + n.why + "]"
+	}
+	n.s = s
+	return s
+}
+
+// ------------------------------------------------------------------------------------------------------------------ the executor
+
+type rfFrame struct {
+	ret     func(st *rfSt, vals []rfV) *rfN // what `return` does
+	results []types.Object                  // named results (nil when unnamed)
+	nres    int
+	inl     string // prefix of the call ids made in this frame (the chain of in-place calls)
+}
+
+type rfX struct {
+	rfCtx
+	nodes  int
+	stack  []*types.Func
+	events map[*types.Func]int // hasEvents memo: 0 unknown, 1 in progress, 2 no, 3 yes
+}
+
+func (x *rfX) unknown(why string) *rfN { return &rfN{kind: "unknown", why: why} }
+
+func (x *rfX) budget() bool {
+	x.nodes++
+	return x.nodes > 20000
+}
+
+// inPkgFunc: the declaration a call resolves to, when it is a function or method of the package under study
+func (x *rfX) inPkgFunc(ce *ast.CallExpr) *entFunc {
+	var fn *types.Func
+	switch f := rfUnparen(ce.Fun).(type) {
+	case *ast.Ident:
+		fn, _ = x.p.info.Uses[f].(*types.Func)
+	case *ast.SelectorExpr:
+		if sel := x.p.info.Selections[f]; sel != nil {
+			if sel.Kind() != types.MethodVal {
+				return nil
+			}
+			fn, _ = sel.Obj().(*types.Func)
+			// an interface method is not a declaration
+			if fn != nil {
+				if _, isI := sel.Recv().Underlying().(*types.Interface); isI {
+					return nil
+				}
+			}
+		}
+	}
+	if fn == nil || fn.Pkg() == nil || fn.Pkg() != x.p.tp {
+		return nil
+	}
+	ef := x.w.funcs[entOrigin(fn)]
+	if ef == nil {
+		ef = x.w.funcs[fn]
+	}
+	if ef == nil || ef.decl == nil || ef.decl.Body == nil || ef.pkg != x.p {
+		return nil
+	}
+	return ef
+}
+
+// ofInterest: a call that is an event: fallible (other than the constructors of wrapped errors), or handed something of type ResponseWriter
+func (x *rfX) ofInterest(ce *ast.CallExpr) bool {
+	if _, _, f := x.fallible(ce); f && !rfIsWrap(x.callee(ce)) {
+		return true
+	}
 	for _, a := range ce.Args {
-		if o := c.objOf(a); o != nil && c.rw[o] {
+		if tv, ok := x.p.info.Types[a]; ok && tv.Type != nil && rfIsRW(tv.Type) {
 			return true
 		}
 	}
-	if se, ok := ce.Fun.(*ast.SelectorExpr); ok {
-		if o := c.objOf(se.X); o != nil && c.rw[o] && se.Sel.Name != "Header" {
+	if se, ok := rfUnparen(ce.Fun).(*ast.SelectorExpr); ok && se.Sel.Name != "Header" {
+		if tv, ok := x.p.info.Types[se.X]; ok && tv.Type != nil && rfIsRW(tv.Type) && x.p.info.Selections[se] != nil {
 			return true
 		}
 	}
 	return false
 }
 
-// wName: how a write is reported
-func (c *rfCtx) wName(ce *ast.CallExpr) string {
-	name := c.callee(ce)
-	if se, ok := ce.Fun.(*ast.SelectorExpr); ok {
-		if o := c.objOf(se.X); o != nil && c.rw[o] {
-			name = "ResponseWriter." + se.Sel.Name
+// hasEvents: the node contains (also through functions of the package) a call of interest, or a closure (which is not followed)
+func (x *rfX) hasEvents(n ast.Node) bool {
+	found := false
+	ast.Inspect(n, func(m ast.Node) bool {
+		if found {
+			return false
 		}
-	}
-	if name == "http.Error" && len(ce.Args) == 3 {
-		if tv, ok := c.p.info.Types[ce.Args[2]]; ok && tv.Value != nil {
-			name += ":" + tv.Value.ExactString()
-		} else {
-			name += ":?"
+		switch v := m.(type) {
+		case *ast.FuncLit:
+			if x.hasEvents(v.Body) {
+				found = true
+			}
+			return false
+		case *ast.CallExpr:
+			if x.ofInterest(v) {
+				found = true
+				return false
+			}
+			if ef := x.inPkgFunc(v); ef != nil && x.funcHasEvents(ef) {
+				found = true
+				return false
+			}
 		}
-	}
-	return name
+		return true
+	})
+	return found
 }
 
-// usesWOtherwise: the ResponseWriter escapes in a way the skeleton does not describe (assigned, captured by a literal, stored)
-func (c *rfCtx) usesWOtherwise(body *ast.BlockStmt) bool {
+func (x *rfX) funcHasEvents(ef *entFunc) bool {
+	switch x.events[ef.obj] {
+	case 1:
+		return true // recursion: assume the worst
+	case 2:
+		return false
+	case 3:
+		return true
+	}
+	x.events[ef.obj] = 1
+	r := x.hasEvents(ef.decl.Body)
+	if r {
+		x.events[ef.obj] = 3
+	} else {
+		x.events[ef.obj] = 2
+	}
+	return r
+}
+
+// escapes: the expression stores the ResponseWriter somewhere the skeleton does not describe (a literal, a closure, an address)
+func (x *rfX) escapes(e ast.Node, st *rfSt) bool {
 	bad := false
-	ast.Inspect(body, func(n ast.Node) bool {
-		switch v := n.(type) {
-		case *ast.FuncLit:
-			ast.Inspect(v.Body, func(m ast.Node) bool {
-				if id, ok := m.(*ast.Ident); ok {
-					if o := c.p.info.Uses[id]; o != nil && c.rw[o] {
-						bad = true
+	mentionsW := func(n ast.Node) bool {
+		m := false
+		ast.Inspect(n, func(k ast.Node) bool {
+			if id, ok := k.(*ast.Ident); ok {
+				if o := x.p.info.Uses[id]; o != nil {
+					if v, ok := st.vars[o]; ok && v.k == "w" {
+						m = true
 					}
 				}
-				return true
-			})
-			return false
-		case *ast.AssignStmt:
-			for _, r := range v.Rhs {
-				if o := c.objOf(r); o != nil && c.rw[o] {
-					bad = true
-				}
 			}
+			return true
+		})
+		return m
+	}
+	ast.Inspect(e, func(n ast.Node) bool {
+		switch v := n.(type) {
+		case *ast.FuncLit:
+			if mentionsW(v.Body) || x.hasEvents(v.Body) || x.assignsOuter(v, st) {
+				bad = true
+			}
+			return false
 		case *ast.CompositeLit:
 			for _, el := range v.Elts {
 				if kv, ok := el.(*ast.KeyValueExpr); ok {
 					el = kv.Value
 				}
-				if o := c.objOf(el); o != nil && c.rw[o] {
+				if id, ok := rfUnparen(el).(*ast.Ident); ok {
+					if o := x.p.info.Uses[id]; o != nil {
+						if vv, ok := st.vars[o]; ok && vv.k == "w" {
+							bad = true
+						}
+					}
+				}
+			}
+		case *ast.UnaryExpr:
+			if v.Op == token.AND && mentionsW(v.X) {
+				if _, isLit := rfUnparen(v.X).(*ast.CompositeLit); !isLit {
 					bad = true
 				}
 			}
@@ -334,354 +546,1353 @@ func (c *rfCtx) usesWOtherwise(body *ast.BlockStmt) bool {
 	return bad
 }
 
-// action: what a block does, as tokens joined by '+'
-func (c *rfCtx) action(list []ast.Stmt, errObj types.Object) string {
-	toks := []string{}
-	for _, st := range list {
-		switch v := st.(type) {
-		case *ast.ExprStmt:
-			if ce, ok := v.X.(*ast.CallExpr); ok {
-				if c.passesW(ce) {
-					toks = append(toks, c.wName(ce))
-				} else if _, _, f := c.fallible(ce); f {
-					toks = append(toks, c.callee(ce)+"/ignored")
-				}
-				// anything else (logging) does not show
-				continue
+// assignsOuter: the closure assigns (or takes the address of) a local of the enclosing function whose value the path follows
+func (x *rfX) assignsOuter(lit *ast.FuncLit, st *rfSt) bool {
+	found := false
+	outer := func(e ast.Expr) {
+		if o := x.objOf(e); o != nil {
+			if _, tracked := st.vars[o]; tracked && (o.Pos() < lit.Pos() || o.Pos() > lit.End()) {
+				found = true
 			}
-			toks = append(toks, "?")
-		case *ast.ReturnStmt:
-			toks = append(toks, c.returnShape(v, errObj))
+		}
+	}
+	ast.Inspect(lit.Body, func(n ast.Node) bool {
+		switch v := n.(type) {
 		case *ast.AssignStmt:
-			calls := false
-			for _, r := range v.Rhs {
-				if _, ok := r.(*ast.CallExpr); ok {
-					calls = true
+			for _, l := range v.Lhs {
+				outer(l)
+			}
+		case *ast.IncDecStmt:
+			outer(v.X)
+		case *ast.UnaryExpr:
+			if v.Op == token.AND {
+				outer(v.X)
+			}
+		case *ast.RangeStmt:
+			if v.Key != nil {
+				outer(v.Key)
+			}
+			if v.Value != nil {
+				outer(v.Value)
+			}
+		}
+		return true
+	})
+	return found
+}
+
+// nested: a call of interest inside e (e itself, when it is a call, is not looked at: only its operands)
+func (x *rfX) nested(e ast.Expr) bool {
+	if ce, ok := rfUnparen(e).(*ast.CallExpr); ok {
+		if x.hasEvents(ce.Fun) {
+			return true
+		}
+		for _, a := range ce.Args {
+			if x.hasEvents(a) {
+				return true
+			}
+		}
+		return false
+	}
+	return x.hasEvents(e)
+}
+
+func rfZero(t types.Type) rfV {
+	if t == nil {
+		return rfOpq
+	}
+	switch u := t.Underlying().(type) {
+	case *types.Pointer, *types.Interface, *types.Slice, *types.Map, *types.Chan, *types.Signature:
+		return rfV{k: "nil"}
+	case *types.Basic:
+		if u.Info()&types.IsBoolean != 0 {
+			return rfV{k: "false"}
+		}
+	}
+	return rfOpq
+}
+
+// expr: the value of an expression on the path (continuation style: evaluating it may make calls and decide atoms)
+func (x *rfX) expr(e ast.Expr, st *rfSt, fr *rfFrame, k func(*rfSt, rfV) *rfN) *rfN {
+	if x.budget() {
+		return x.unknown("overflow")
+	}
+	e = rfUnparen(e)
+	if tv, ok := x.p.info.Types[e]; ok && tv.Value != nil && tv.Type != nil {
+		if b, ok := tv.Type.Underlying().(*types.Basic); ok && b.Info()&types.IsBoolean != 0 {
+			if tv.Value.ExactString() == "true" {
+				return k(st, rfV{k: "true"})
+			}
+			return k(st, rfV{k: "false"})
+		}
+	}
+	switch v := e.(type) {
+	case *ast.Ident:
+		if rfIsNilIdent(&x.rfCtx, v) {
+			return k(st, rfV{k: "nil"})
+		}
+		if x.isErrNotExist(v) {
+			return k(st, rfV{k: "ne"})
+		}
+		if o := x.objOf(v); o != nil {
+			if val, ok := st.vars[o]; ok {
+				return k(st, val)
+			}
+		}
+		return k(st, rfOpq)
+	case *ast.SelectorExpr:
+		if x.isErrNotExist(v) {
+			return k(st, rfV{k: "ne"})
+		}
+		if x.nested(v) {
+			return x.unknown("nested call")
+		}
+		return k(st, rfOpq)
+	case *ast.CallExpr:
+		return x.call(v, st, fr, func(st *rfSt, vals []rfV) *rfN {
+			if len(vals) != 1 {
+				return k(st, rfOpq)
+			}
+			return k(st, vals[0])
+		})
+	case *ast.UnaryExpr:
+		if v.Op == token.NOT {
+			return x.expr(v.X, st, fr, func(st *rfSt, a rfV) *rfN {
+				switch a.k {
+				case "true":
+					return k(st, rfV{k: "false"})
+				case "false":
+					return k(st, rfV{k: "true"})
+				}
+				return k(st, rfOpq)
+			})
+		}
+	case *ast.BinaryExpr:
+		switch v.Op {
+		case token.EQL, token.NEQ:
+			return x.expr(v.X, st, fr, func(st *rfSt, a rfV) *rfN {
+				return x.expr(v.Y, st, fr, func(st *rfSt, b rfV) *rfN {
+					return x.compare(a, b, st, func(st *rfSt, r rfV) *rfN {
+						if v.Op == token.NEQ {
+							switch r.k {
+							case "true":
+								r = rfV{k: "false"}
+							case "false":
+								r = rfV{k: "true"}
+							}
+						}
+						return k(st, r)
+					})
+				})
+			})
+		case token.LAND, token.LOR:
+			stop, other := "false", "true" // && stops at the first false
+			if v.Op == token.LOR {
+				stop, other = "true", "false"
+			}
+			return x.expr(v.X, st, fr, func(st *rfSt, a rfV) *rfN {
+				if a.k == stop {
+					return k(st, rfV{k: stop})
+				}
+				return x.expr(v.Y, st, fr, func(st *rfSt, b rfV) *rfN {
+					switch {
+					case b.k == stop:
+						return k(st, rfV{k: stop})
+					case a.k == other && b.k == other:
+						return k(st, rfV{k: other})
+					}
+					return k(st, rfOpq)
+				})
+			})
+		}
+	}
+	// anything else: opaque, provided nothing of interest hides in it
+	if x.nested(e) {
+		return x.unknown("nested call")
+	}
+	if x.escapes(e, st) {
+		return x.unknown("ResponseWriter escapes")
+	}
+	return k(st, rfOpq)
+}
+
+// compare: a == b on the path; splits the path when it is an undecided atom
+func (x *rfX) compare(a, b rfV, st *rfSt, k func(*rfSt, rfV) *rfN) *rfN {
+	if a.k != "err" && a.k != "res" && (b.k == "err" || b.k == "res") {
+		a, b = b, a
+	}
+	konst := func(v rfV) bool {
+		return v.k == "nil" || v.k == "ne" || v.k == "wrapped" || v.k == "true" || v.k == "false"
+	}
+	switch {
+	case a.k == "err" && b.k == "nil":
+		return x.decide(rfAtom{call: a.call, what: "nil"}, st, k)
+	case a.k == "err" && b.k == "ne":
+		return x.decide(rfAtom{call: a.call, what: "ne"}, st, k)
+	case a.k == "res" && b.k == "nil":
+		return x.decide(rfAtom{call: a.call, what: "resnil", idx: a.idx}, st, k)
+	case konst(a) && konst(b):
+		if a.k == "wrapped" && b.k == "wrapped" {
+			return k(st, rfOpq)
+		}
+		if a.k == b.k {
+			return k(st, rfV{k: "true"})
+		}
+		return k(st, rfV{k: "false"})
+	}
+	return k(st, rfOpq)
+}
+
+// decide: an atom; decided by what the path knows, else the path splits
+func (x *rfX) decide(a rfAtom, st *rfSt, k func(*rfSt, rfV) *rfN) *rfN {
+	c, ok := st.cons[a.call]
+	if !ok {
+		return x.unknown("test on a call not made on this path")
+	}
+	var have, all uint8
+	if a.what == "resnil" {
+		have, all = rfRAll, rfRAll
+		if m, ok := c.r[a.idx]; ok {
+			have = m
+		}
+	} else {
+		have, all = c.e, rfEAll
+	}
+	yes, no := have&a.mask(), have&(all&^a.mask())
+	switch {
+	case no == 0:
+		return k(st, rfV{k: "true"})
+	case yes == 0:
+		return k(st, rfV{k: "false"})
+	}
+	if x.budget() {
+		return x.unknown("overflow")
+	}
+	narrow := func(m uint8) *rfSt {
+		n := st.clone()
+		cc := n.cons[a.call]
+		if a.what == "resnil" {
+			cc.r[a.idx] = m
+		} else {
+			cc.e = m
+		}
+		n.cons[a.call] = cc
+		return n
+	}
+	return &rfN{kind: "dec", atom: a, t: k(narrow(yes), rfV{k: "true"}), f: k(narrow(no), rfV{k: "false"})}
+}
+
+// cond: a condition of an if / a switch case: a known value chooses, an opaque one splits the path
+func (x *rfX) cond(e ast.Expr, st *rfSt, fr *rfFrame, kT, kF func(*rfSt) *rfN) *rfN {
+	e = rfUnparen(e)
+	switch v := e.(type) {
+	case *ast.UnaryExpr:
+		if v.Op == token.NOT {
+			return x.cond(v.X, st, fr, kF, kT)
+		}
+	case *ast.BinaryExpr:
+		switch v.Op {
+		case token.LAND:
+			return x.cond(v.X, st, fr, func(st *rfSt) *rfN { return x.cond(v.Y, st, fr, kT, kF) }, kF)
+		case token.LOR:
+			return x.cond(v.X, st, fr, kT, func(st *rfSt) *rfN { return x.cond(v.Y, st, fr, kT, kF) })
+		}
+	}
+	return x.expr(e, st, fr, func(st *rfSt, r rfV) *rfN { return x.choose(r, st, kT, kF) })
+}
+
+func (x *rfX) choose(r rfV, st *rfSt, kT, kF func(*rfSt) *rfN) *rfN {
+	switch r.k {
+	case "true":
+		return kT(st)
+	case "false":
+		return kF(st)
+	}
+	if x.budget() {
+		return x.unknown("overflow")
+	}
+	return &rfN{kind: "opq", t: kT(st.clone()), f: kF(st.clone())}
+}
+
+// passesW: the call hands the ResponseWriter on (argument, or receiver of a method other than Header)
+func (x *rfX) passesW(ce *ast.CallExpr, st *rfSt) bool {
+	isW := func(e ast.Expr) bool {
+		if o := x.objOf(e); o != nil {
+			if v, ok := st.vars[o]; ok && v.k == "w" {
+				return true
+			}
+		}
+		return false
+	}
+	for _, a := range ce.Args {
+		if isW(a) {
+			return true
+		}
+	}
+	if se, ok := rfUnparen(ce.Fun).(*ast.SelectorExpr); ok {
+		if isW(se.X) && se.Sel.Name != "Header" {
+			return true
+		}
+	}
+	return false
+}
+
+// wName: how a write is reported
+func (x *rfX) wName(ce *ast.CallExpr, st *rfSt) string {
+	name := x.callee(ce)
+	if se, ok := rfUnparen(ce.Fun).(*ast.SelectorExpr); ok {
+		if o := x.objOf(se.X); o != nil {
+			if v, ok := st.vars[o]; ok && v.k == "w" {
+				name = "ResponseWriter." + se.Sel.Name
+			}
+		}
+	}
+	if name == "http.Error" && len(ce.Args) == 3 {
+		if tv, ok := x.p.info.Types[ce.Args[2]]; ok && tv.Value != nil {
+			name += ":" + tv.Value.ExactString()
+		} else {
+			name += ":?"
+		}
+	}
+	return name
+}
+
+// plain: the value of an operand of a call that is plain (an identifier, nil, ErrNotExist, a wrapped error); anything else is opaque
+func (x *rfX) plain(e ast.Expr, st *rfSt) rfV {
+	e = rfUnparen(e)
+	switch v := e.(type) {
+	case *ast.Ident:
+		if rfIsNilIdent(&x.rfCtx, v) {
+			return rfV{k: "nil"}
+		}
+		if x.isErrNotExist(v) {
+			return rfV{k: "ne"}
+		}
+		if o := x.objOf(v); o != nil {
+			if val, ok := st.vars[o]; ok {
+				return val
+			}
+		}
+	case *ast.SelectorExpr:
+		if x.isErrNotExist(v) {
+			return rfV{k: "ne"}
+		}
+	case *ast.CallExpr:
+		if rfIsWrap(x.callee(v)) {
+			return rfV{k: "wrapped"}
+		}
+	}
+	return rfOpq
+}
+
+// call: a call on the path: executed in place (a function of the package), an event (fallible / a write), or nothing
+func (x *rfX) call(ce *ast.CallExpr, st *rfSt, fr *rfFrame, k func(*rfSt, []rfV) *rfN) *rfN {
+	if x.budget() {
+		return x.unknown("overflow")
+	}
+	name := x.callee(ce)
+	errIdx, nres, fall := x.fallible(ce)
+	opaque := func() []rfV {
+		out := make([]rfV, nres)
+		for i := range out {
+			out[i] = rfOpq
+		}
+		return out
+	}
+	if x.nested(ce) {
+		return x.unknown("nested call")
+	}
+	for _, a := range ce.Args {
+		if x.escapes(a, st) {
+			return x.unknown("ResponseWriter escapes")
+		}
+	}
+	if rfIsWrap(name) {
+		return k(st, []rfV{{k: "wrapped"}})
+	}
+	// a local whose address is handed over is whatever the callee makes of it
+	addressed := []types.Object{}
+	for _, a := range ce.Args {
+		ast.Inspect(a, func(n ast.Node) bool {
+			if u, ok := n.(*ast.UnaryExpr); ok && u.Op == token.AND {
+				if o := x.objOf(u.X); o != nil {
+					if _, tracked := st.vars[o]; tracked {
+						addressed = append(addressed, o)
+					}
 				}
 			}
-			if calls {
-				toks = append(toks, "?")
-			} else {
-				toks = append(toks, "assign")
+			return true
+		})
+	}
+	if len(addressed) > 0 {
+		k0 := k
+		k = func(st *rfSt, vals []rfV) *rfN {
+			st = st.clone()
+			for _, o := range addressed {
+				st.vars[o] = rfOpq
 			}
+			return k0(st, vals)
+		}
+	}
+	if name == "errors.Is" && len(ce.Args) == 2 {
+		a, b := x.plain(ce.Args[0], st), x.plain(ce.Args[1], st)
+		if a.k == "err" && b.k == "ne" {
+			return x.decide(rfAtom{call: a.call, what: "is"}, st, func(st *rfSt, r rfV) *rfN { return k(st, []rfV{r}) })
+		}
+		if (a.k == "nil" || a.k == "wrapped") && b.k == "ne" {
+			if a.k == "nil" {
+				return k(st, []rfV{{k: "false"}})
+			}
+			return k(st, []rfV{rfOpq})
+		}
+		if a.k == "ne" && b.k == "ne" {
+			return k(st, []rfV{{k: "true"}})
+		}
+		return k(st, []rfV{rfOpq})
+	}
+	if name == "builtin.panic" {
+		return x.unknown("panic")
+	}
+	if ef := x.inPkgFunc(ce); ef != nil {
+		argv := make([]rfV, len(ce.Args))
+		interesting := false
+		for i, a := range ce.Args {
+			argv[i] = x.plain(a, st)
+			if argv[i].k != "opq" {
+				interesting = true
+			}
+		}
+		handed := false
+		for _, v := range argv {
+			if v.k == "w" || v.k == "ctx" {
+				handed = true
+			}
+		}
+		var recvV rfV = rfOpq
+		if se, ok := rfUnparen(ce.Fun).(*ast.SelectorExpr); ok {
+			recvV = x.plain(se.X, st)
+			if recvV.k == "w" || recvV.k == "ctx" {
+				handed = true
+			}
+		}
+		if !ef.obj.Exported() || handed {
+			if !x.funcHasEvents(ef) && !interesting {
+				return k(st, opaque()) // nothing it could do or decide shows in the skeleton
+			}
+			return x.inPlace(ce, ef, argv, recvV, st, fr, k)
+		}
+	}
+	isW := x.passesW(ce, st)
+	if !fall && !isW {
+		return k(st, opaque())
+	}
+	id := fr.inl + x.w.fset.Position(ce.Pos()).String()
+	if i := strings.LastIndex(id, "/"); i >= 0 {
+		id = fr.inl + id[i+1:]
+	}
+	n := &rfN{kind: "call", id: id, name: name, isW: isW, fall: fall, nres: nres, errIdx: errIdx}
+	if isW {
+		n.name = x.wName(ce, st)
+	}
+	vals := make([]rfV, nres)
+	for i := range vals {
+		switch {
+		case !fall:
+			vals[i] = rfOpq
+		case i == errIdx:
+			vals[i] = rfV{k: "err", call: id}
 		default:
-			toks = append(toks, "?")
+			vals[i] = rfV{k: "res", call: id, idx: i}
 		}
 	}
-	if len(toks) == 0 {
-		return "nothing"
+	if fall {
+		st = st.clone()
+		st.cons[id] = rfCell{e: rfEAll, r: map[int]uint8{}}
 	}
-	return strings.Join(toks, "+")
+	n.next = k(st, vals)
+	return n
 }
 
-func (c *rfCtx) returnShape(rs *ast.ReturnStmt, errObj types.Object) string {
-	if len(rs.Results) == 0 {
-		return "return"
-	}
-	last := rs.Results[len(rs.Results)-1]
-	for _, r := range rs.Results[:len(rs.Results)-1] {
-		if !rfIsNilIdent(c, r) {
-			return "return-?"
+// inPlace: the body of a function of the package, executed with the caller's values; every return continues in the caller
+func (x *rfX) inPlace(ce *ast.CallExpr, ef *entFunc, argv []rfV, recvV rfV, st *rfSt, fr *rfFrame, k func(*rfSt, []rfV) *rfN) *rfN {
+	for _, f := range x.stack {
+		if f == ef.obj {
+			return x.unknown("recursion")
 		}
 	}
-	if rfIsNilIdent(c, last) {
-		return "return-nil"
+	if len(x.stack) >= 4 {
+		return x.unknown("too deep")
 	}
-	if o := c.objOf(last); o != nil && errObj != nil && o == errObj {
-		return "return-err"
+	sig, _ := ef.obj.Type().(*types.Signature)
+	if sig == nil {
+		return x.unknown("no signature")
 	}
-	if o := c.objOf(last); o != nil && rfIsError(o.Type()) {
-		return "return-err" // another error variable in scope (named result)
-	}
-	if ce, ok := last.(*ast.CallExpr); ok {
-		switch c.callee(ce) {
-		case "fmt.Errorf", "errors.New":
-			return "return-wrapped"
+	st = st.clone()
+	if ef.decl.Recv != nil && len(ef.decl.Recv.List) == 1 && len(ef.decl.Recv.List[0].Names) == 1 {
+		if o := x.p.info.Defs[ef.decl.Recv.List[0].Names[0]]; o != nil {
+			st.vars[o] = recvV
 		}
 	}
-	return "return-?"
-}
-
-// same-package helper that receives the ResponseWriter or the Context: its declaration
-func (c *rfCtx) helperOf(ce *ast.CallExpr) (*entFunc, map[int]string) {
-	var fn *types.Func
-	switch f := ce.Fun.(type) {
-	case *ast.Ident:
-		fn, _ = c.p.info.Uses[f].(*types.Func)
-	case *ast.SelectorExpr:
-		if sel := c.p.info.Selections[f]; sel != nil {
-			fn, _ = sel.Obj().(*types.Func)
-		}
-	}
-	if fn == nil || fn.Pkg() == nil || fn.Pkg() != c.p.tp {
-		return nil, nil
-	}
-	ef := c.w.funcs[fn]
-	if ef == nil || ef.decl == nil || ef.decl.Body == nil {
-		return nil, nil
-	}
-	roles := map[int]string{}
-	for i, a := range ce.Args {
-		if o := c.objOf(a); o != nil {
-			if c.rw[o] {
-				roles[i] = "w"
-			} else if c.ctx[o] {
-				roles[i] = "ctx"
-			}
-		}
-	}
-	if len(roles) == 0 {
-		return nil, nil
-	}
-	return ef, roles
-}
-
-func (c *rfCtx) splice(ef *entFunc, roles map[int]string) {
-	if c.depth >= 3 {
-		c.emit("unknown")
-		return
-	}
-	sub := &rfCtx{w: c.w, p: ef.pkg, rw: map[types.Object]bool{}, ctx: map[types.Object]bool{}, depth: c.depth + 1}
 	i := 0
-	for _, f := range ef.decl.Type.Params.List {
-		for _, n := range f.Names {
-			if o := ef.pkg.info.Defs[n]; o != nil {
-				switch roles[i] {
-				case "w":
-					sub.rw[o] = true
-				case "ctx":
-					sub.ctx[o] = true
+	for _, fl := range ef.decl.Type.Params.List {
+		names := fl.Names
+		if len(names) == 0 {
+			i++
+			continue
+		}
+		for _, nm := range names {
+			o := x.p.info.Defs[nm]
+			if o != nil {
+				_, variadic := fl.Type.(*ast.Ellipsis)
+				if i < len(argv) && !variadic && len(argv) == sig.Params().Len() {
+					st.vars[o] = argv[i]
+				} else {
+					st.vars[o] = rfOpq
 				}
 			}
 			i++
 		}
 	}
-	sub.block(ef.decl.Body.List)
-	c.out = append(c.out, sub.out...)
+	sub := &rfFrame{nres: sig.Results().Len(), inl: fr.inl + ef.obj.Name() + ">"}
+	if ef.decl.Type.Results != nil {
+		for _, fl := range ef.decl.Type.Results.List {
+			for _, nm := range fl.Names {
+				o := x.p.info.Defs[nm]
+				sub.results = append(sub.results, o)
+				if o != nil {
+					st.vars[o] = rfZero(o.Type())
+				}
+			}
+		}
+	}
+	outer := x.stack
+	inner := append(append([]*types.Func{}, outer...), ef.obj)
+	x.stack = inner
+	sub.ret = func(st *rfSt, vals []rfV) *rfN {
+		// the caller goes on: outside the helper again
+		x.stack = outer
+		r := k(st, vals)
+		x.stack = inner
+		return r
+	}
+	r := x.block(ef.decl.Body.List, st, sub, func(st *rfSt) *rfN { return x.fallOff(st, sub) })
+	x.stack = outer
+	return r
 }
 
-// reactions: the tests after a fallible call, over the statements that follow it
-func (c *rfCtx) reactions(rest []ast.Stmt, errObj types.Object, resObjs map[types.Object]bool) (string, int) {
-	parts := []string{}
-	used := 0
-	for _, st := range rest {
-		switch v := st.(type) {
-		case *ast.IfStmt:
-			if v.Init != nil {
-				return strings.Join(parts, " ; "), used
+func (x *rfX) fallOff(st *rfSt, fr *rfFrame) *rfN {
+	if fr.nres == 0 {
+		return fr.ret(st, nil)
+	}
+	if len(fr.results) == fr.nres {
+		return fr.ret(st, x.named(st, fr))
+	}
+	return x.unknown("falls off a function with results")
+}
+
+func (x *rfX) named(st *rfSt, fr *rfFrame) []rfV {
+	vals := make([]rfV, len(fr.results))
+	for i, o := range fr.results {
+		vals[i] = rfOpq
+		if o != nil {
+			if v, ok := st.vars[o]; ok {
+				vals[i] = v
 			}
-			cs, m := c.cond(v.Cond, errObj, resObjs)
-			if !m {
-				return strings.Join(parts, " ; "), used
+		}
+	}
+	return vals
+}
+
+func (x *rfX) block(list []ast.Stmt, st *rfSt, fr *rfFrame, k func(*rfSt) *rfN) *rfN {
+	if len(list) == 0 {
+		return k(st)
+	}
+	return x.stmt(list[0], st, fr, func(st *rfSt) *rfN { return x.block(list[1:], st, fr, k) })
+}
+
+// bind: lhs := / = vals
+func (x *rfX) bind(lhs []ast.Expr, vals []rfV, st *rfSt) *rfSt {
+	st = st.clone()
+	for i, l := range lhs {
+		id, ok := rfUnparen(l).(*ast.Ident)
+		if !ok || id.Name == "_" {
+			continue
+		}
+		o := x.objOf(id)
+		if o == nil {
+			continue
+		}
+		if i < len(vals) && len(vals) == len(lhs) {
+			st.vars[o] = vals[i]
+		} else {
+			st.vars[o] = rfOpq
+		}
+	}
+	return st
+}
+
+// havoc: every local assigned inside n is opaque afterwards
+func (x *rfX) havoc(n ast.Node, st *rfSt) *rfSt {
+	st = st.clone()
+	set := func(e ast.Expr) {
+		if e == nil {
+			return
+		}
+		if o := x.objOf(e); o != nil {
+			st.vars[o] = rfOpq
+		}
+	}
+	ast.Inspect(n, func(m ast.Node) bool {
+		switch v := m.(type) {
+		case *ast.AssignStmt:
+			for _, l := range v.Lhs {
+				set(l)
 			}
-			parts = append(parts, cs+" => "+c.action(v.Body.List, errObj))
-			used++
-			// else-if chain
-			el := v.Else
-			for el != nil {
-				if ei, ok := el.(*ast.IfStmt); ok {
-					cs, _ := c.cond(ei.Cond, errObj, resObjs)
-					parts = append(parts, cs+" => "+c.action(ei.Body.List, errObj))
-					el = ei.Else
+		case *ast.IncDecStmt:
+			set(v.X)
+		case *ast.RangeStmt:
+			set(v.Key)
+			set(v.Value)
+		case *ast.UnaryExpr:
+			if v.Op == token.AND {
+				set(v.X)
+			}
+		}
+		return true
+	})
+	return st
+}
+
+// leaves: the node contains a statement that leaves it other than by running to its end
+func rfLeaves(n ast.Node) bool {
+	found := false
+	ast.Inspect(n, func(m ast.Node) bool {
+		switch m.(type) {
+		case *ast.FuncLit:
+			return false
+		case *ast.ReturnStmt, *ast.GoStmt, *ast.SelectStmt, *ast.DeferStmt:
+			found = true
+		case *ast.BranchStmt:
+			if m.(*ast.BranchStmt).Tok == token.GOTO {
+				found = true
+			}
+		}
+		return !found
+	})
+	return found
+}
+
+func (x *rfX) stmt(s ast.Stmt, st *rfSt, fr *rfFrame, k func(*rfSt) *rfN) *rfN {
+	if x.budget() {
+		return x.unknown("overflow")
+	}
+	switch v := s.(type) {
+	case nil:
+		return k(st)
+	case *ast.EmptyStmt:
+		return k(st)
+	case *ast.BlockStmt:
+		return x.block(v.List, st, fr, k)
+	case *ast.ExprStmt:
+		if ce, ok := rfUnparen(v.X).(*ast.CallExpr); ok {
+			return x.call(ce, st, fr, func(st *rfSt, _ []rfV) *rfN { return k(st) })
+		}
+		return x.expr(v.X, st, fr, func(st *rfSt, _ rfV) *rfN { return k(st) })
+	case *ast.AssignStmt:
+		if v.Tok != token.ASSIGN && v.Tok != token.DEFINE {
+			// x += …
+			for _, r := range v.Rhs {
+				if x.nested(r) || x.hasEvents(r) {
+					return x.unknown("call in an operator assignment")
+				}
+			}
+			return k(x.bind(v.Lhs, nil, st))
+		}
+		for _, l := range v.Lhs {
+			if _, ok := rfUnparen(l).(*ast.Ident); !ok && x.hasEvents(l) {
+				return x.unknown("call on the left of an assignment")
+			}
+		}
+		if len(v.Rhs) == 1 {
+			if ce, ok := rfUnparen(v.Rhs[0]).(*ast.CallExpr); ok {
+				return x.call(ce, st, fr, func(st *rfSt, vals []rfV) *rfN { return k(x.bind(v.Lhs, vals, st)) })
+			}
+		}
+		if len(v.Rhs) != len(v.Lhs) {
+			for _, r := range v.Rhs {
+				if x.hasEvents(r) {
+					return x.unknown("call in a tuple assignment")
+				}
+			}
+			return k(x.bind(v.Lhs, nil, st))
+		}
+		return x.exprs(v.Rhs, st, fr, func(st *rfSt, vals []rfV) *rfN { return k(x.bind(v.Lhs, vals, st)) })
+	case *ast.DeclStmt:
+		gd, ok := v.Decl.(*ast.GenDecl)
+		if !ok || gd.Tok != token.VAR {
+			return k(st)
+		}
+		return x.specs(gd.Specs, st, fr, k)
+	case *ast.IncDecStmt:
+		return k(x.bind([]ast.Expr{v.X}, nil, st))
+	case *ast.ReturnStmt:
+		if len(v.Results) == 0 {
+			if fr.nres == 0 {
+				return fr.ret(st, nil)
+			}
+			if len(fr.results) == fr.nres {
+				return fr.ret(st, x.named(st, fr))
+			}
+			return x.unknown("bare return")
+		}
+		if len(v.Results) == 1 && fr.nres > 1 {
+			if ce, ok := rfUnparen(v.Results[0]).(*ast.CallExpr); ok {
+				return x.call(ce, st, fr, func(st *rfSt, vals []rfV) *rfN {
+					if len(vals) != fr.nres {
+						return x.unknown("return of a call with other results")
+					}
+					return fr.ret(st, vals)
+				})
+			}
+			return x.unknown("return")
+		}
+		return x.exprs(v.Results, st, fr, func(st *rfSt, vals []rfV) *rfN { return fr.ret(st, vals) })
+	case *ast.IfStmt:
+		return x.stmt(v.Init, st, fr, func(st *rfSt) *rfN {
+			return x.cond(v.Cond, st, fr,
+				func(st *rfSt) *rfN { return x.block(v.Body.List, st, fr, k) },
+				func(st *rfSt) *rfN { return x.stmt(v.Else, st, fr, k) })
+		})
+	case *ast.SwitchStmt:
+		return x.stmt(v.Init, st, fr, func(st *rfSt) *rfN {
+			for _, cc := range v.Body.List {
+				for _, b := range cc.(*ast.CaseClause).Body {
+					if br, ok := b.(*ast.BranchStmt); ok && br.Tok == token.FALLTHROUGH {
+						return x.unknown("fallthrough")
+					}
+				}
+			}
+			if rfBreaks(v.Body) {
+				return x.unknown("break")
+			}
+			if v.Tag == nil {
+				return x.clauses(v, rfOpq, false, 0, 0, st, fr, k)
+			}
+			return x.expr(v.Tag, st, fr, func(st *rfSt, tag rfV) *rfN { return x.clauses(v, tag, true, 0, 0, st, fr, k) })
+		})
+	case *ast.ForStmt, *ast.RangeStmt:
+		if x.hasEvents(v) {
+			return x.unknown("loop with calls of interest")
+		}
+		if rfLeaves(v) {
+			return x.unknown("loop that leaves the function")
+		}
+		if x.escapes(v, st) {
+			return x.unknown("ResponseWriter escapes")
+		}
+		return k(x.havoc(v, st))
+	case *ast.DeferStmt:
+		if x.nested(v.Call) || x.escapes(v.Call, st) {
+			return x.unknown("defer")
+		}
+		if _, ok := rfUnparen(v.Call.Fun).(*ast.FuncLit); ok {
+			if x.hasEvents(v.Call.Fun) {
+				return x.unknown("deferred closure")
+			}
+			return k(st)
+		}
+		if ef := x.inPkgFunc(v.Call); ef != nil && x.funcHasEvents(ef) {
+			return x.unknown("deferred function of the package")
+		}
+		errIdx, nres, fall := x.fallible(v.Call)
+		isW := x.passesW(v.Call, st)
+		if !fall && !isW {
+			return k(st)
+		}
+		if isW {
+			return x.unknown("deferred write")
+		}
+		id := fr.inl + "defer@" + fmt.Sprint(x.w.fset.Position(v.Call.Pos()).Offset)
+		return &rfN{kind: "call", id: id, name: x.callee(v.Call), fall: true, nres: nres, errIdx: errIdx, deferred: true, next: k(st)}
+	}
+	return x.unknown(fmt.Sprintf("%T", s))
+}
+
+// rfBreaks: a `break` that would leave the switch (not one inside a nested loop / switch / select)
+func rfBreaks(body *ast.BlockStmt) bool {
+	found := false
+	var walk func(n ast.Node, top bool)
+	walk = func(n ast.Node, top bool) {
+		ast.Inspect(n, func(m ast.Node) bool {
+			if m == n {
+				return true
+			}
+			switch v := m.(type) {
+			case *ast.FuncLit, *ast.ForStmt, *ast.RangeStmt, *ast.SwitchStmt, *ast.TypeSwitchStmt, *ast.SelectStmt:
+				// a labelled break out of these would be a LabeledStmt target: refuse labels altogether
+				ast.Inspect(v, func(q ast.Node) bool {
+					if b, ok := q.(*ast.BranchStmt); ok && b.Label != nil {
+						found = true
+					}
+					return true
+				})
+				return false
+			case *ast.BranchStmt:
+				if v.Tok == token.BREAK || v.Tok == token.CONTINUE || v.Tok == token.GOTO {
+					found = true
+				}
+			}
+			return true
+		})
+	}
+	walk(body, true)
+	return found
+}
+
+// clauses: the cases of a switch from clause ci, expression ei on, in order; the default clause when none matches
+func (x *rfX) clauses(sw *ast.SwitchStmt, tag rfV, tagged bool, ci, ei int, st *rfSt, fr *rfFrame, k func(*rfSt) *rfN) *rfN {
+	list := sw.Body.List
+	for ci < len(list) {
+		cl := list[ci].(*ast.CaseClause)
+		if cl.List == nil || ei >= len(cl.List) {
+			ci, ei = ci+1, 0
+			continue
+		}
+		body := cl.Body
+		hit := func(st *rfSt) *rfN { return x.block(body, st, fr, k) }
+		miss := func(st *rfSt) *rfN { return x.clauses(sw, tag, tagged, ci, ei+1, st, fr, k) }
+		if !tagged {
+			return x.cond(cl.List[ei], st, fr, hit, miss)
+		}
+		return x.expr(cl.List[ei], st, fr, func(st *rfSt, cv rfV) *rfN {
+			return x.compare(tag, cv, st, func(st *rfSt, r rfV) *rfN { return x.choose(r, st, hit, miss) })
+		})
+	}
+	for _, cc := range list {
+		if cl := cc.(*ast.CaseClause); cl.List == nil {
+			return x.block(cl.Body, st, fr, k)
+		}
+	}
+	return k(st)
+}
+
+func (x *rfX) exprs(es []ast.Expr, st *rfSt, fr *rfFrame, k func(*rfSt, []rfV) *rfN) *rfN {
+	var rec func(i int, st *rfSt, acc []rfV) *rfN
+	rec = func(i int, st *rfSt, acc []rfV) *rfN {
+		if i == len(es) {
+			return k(st, acc)
+		}
+		return x.expr(es[i], st, fr, func(st *rfSt, v rfV) *rfN {
+			next := append(append([]rfV{}, acc...), v)
+			return rec(i+1, st, next)
+		})
+	}
+	return rec(0, st, nil)
+}
+
+func (x *rfX) specs(specs []ast.Spec, st *rfSt, fr *rfFrame, k func(*rfSt) *rfN) *rfN {
+	if len(specs) == 0 {
+		return k(st)
+	}
+	vs, ok := specs[0].(*ast.ValueSpec)
+	if !ok {
+		return x.specs(specs[1:], st, fr, k)
+	}
+	lhs := make([]ast.Expr, len(vs.Names))
+	for i, n := range vs.Names {
+		lhs[i] = n
+	}
+	rest := func(st *rfSt) *rfN { return x.specs(specs[1:], st, fr, k) }
+	switch {
+	case len(vs.Values) == 0:
+		st = st.clone()
+		for _, n := range vs.Names {
+			if o := x.p.info.Defs[n]; o != nil {
+				st.vars[o] = rfZero(o.Type())
+			}
+		}
+		return rest(st)
+	case len(vs.Values) == 1:
+		if ce, ok := rfUnparen(vs.Values[0]).(*ast.CallExpr); ok {
+			return x.call(ce, st, fr, func(st *rfSt, vals []rfV) *rfN { return rest(x.bind(lhs, vals, st)) })
+		}
+	}
+	if len(vs.Values) != len(lhs) {
+		return x.unknown("var")
+	}
+	return x.exprs(vs.Values, st, fr, func(st *rfSt, vals []rfV) *rfN { return rest(x.bind(lhs, vals, st)) })
+}
+
+// ------------------------------------------------------------------------------------------------------------------ from the tree to the skeleton
+
+// specialise: the tree with every decision on a result of `call` taken as the cell says
+func rfSpecialise(n *rfN, call string, e uint8, r map[int]uint8) *rfN {
+	switch n.kind {
+	case "call":
+		nx := rfSpecialise(n.next, call, e, r)
+		if nx == n.next {
+			return n
+		}
+		c := *n
+		c.next, c.s = nx, ""
+		return &c
+	case "dec":
+		if n.atom.call == call {
+			var is bool
+			if n.atom.what == "resnil" {
+				is = r[n.atom.idx]&n.atom.mask() != 0
+			} else {
+				is = e&n.atom.mask() != 0
+			}
+			if is {
+				return rfSpecialise(n.t, call, e, r)
+			}
+			return rfSpecialise(n.f, call, e, r)
+		}
+		fallthrough
+	case "opq":
+		t, f := rfSpecialise(n.t, call, e, r), rfSpecialise(n.f, call, e, r)
+		if t == n.t && f == n.f {
+			return n
+		}
+		c := *n
+		c.t, c.f, c.s = t, f, ""
+		return &c
+	}
+	return n
+}
+
+// rfSimplify: opaque decisions carry neither their condition nor their polarity, so a cluster of them (nested ifs, `a && b`, an else-if chain on
+// things the skeleton does not follow) says no more than WHICH continuations it chooses between: it is rebuilt as a chain over the distinct
+// continuations in a fixed order (one continuation: no decision at all).  Tests on a call's result are kept as they are.
+func rfSimplify(n *rfN) *rfN {
+	switch n.kind {
+	case "call":
+		nx := rfSimplify(n.next)
+		if nx == n.next {
+			return n
+		}
+		c := *n
+		c.next, c.s = nx, ""
+		return &c
+	case "dec":
+		t, f := rfSimplify(n.t), rfSimplify(n.f)
+		if t == n.t && f == n.f {
+			return n
+		}
+		c := *n
+		c.t, c.f, c.s = t, f, ""
+		return &c
+	case "opq":
+		leaves := map[string]*rfN{}
+		var collect func(m *rfN)
+		collect = func(m *rfN) {
+			if m.kind == "opq" {
+				collect(m.t)
+				collect(m.f)
+				return
+			}
+			m = rfSimplify(m)
+			if m.kind == "opq" { // (cannot happen: rfSimplify of a non-opq node is not an opq node)
+				collect(m)
+				return
+			}
+			leaves[m.ser()] = m
+		}
+		collect(n)
+		keys := make([]string, 0, len(leaves))
+		for k := range leaves {
+			keys = append(keys, k)
+		}
+		sort.Strings(keys)
+		out := leaves[keys[len(keys)-1]]
+		for i := len(keys) - 2; i >= 0; i-- {
+			out = &rfN{kind: "opq", t: leaves[keys[i]], f: out}
+		}
+		return out
+	}
+	return n
+}
+
+// rfRefs: how the tree uses the results of a call: tests on its error, tests on its other results (by index), its error among the values returned
+func rfRefs(n *rfN, call string, errTests *int, resTests map[int]bool, returned *int) {
+	switch n.kind {
+	case "call":
+		rfRefs(n.next, call, errTests, resTests, returned)
+	case "dec":
+		if n.atom.call == call {
+			if n.atom.what == "resnil" {
+				resTests[n.atom.idx] = true
+			} else {
+				*errTests++
+			}
+		}
+		fallthrough
+	case "opq":
+		rfRefs(n.t, call, errTests, resTests, returned)
+		rfRefs(n.f, call, errTests, resTests, returned)
+	case "exit":
+		for _, v := range n.vals {
+			if v.k == "err" && v.call == call {
+				*returned++
+			}
+		}
+	}
+}
+
+// rfShape: how a return is reported, seen from the call `call` (the legacy notation: every result but the last nil, the last one nil / the
+// call's error / a wrapped error)
+func rfShape(vals []rfV, call string) string {
+	if len(vals) == 0 {
+		return "return"
+	}
+	for _, v := range vals[:len(vals)-1] {
+		if v.k != "nil" {
+			return "return-?"
+		}
+	}
+	last := vals[len(vals)-1]
+	switch last.k {
+	case "nil":
+		return "return-nil"
+	case "err":
+		if call == "" || last.call == call {
+			return "return-err"
+		}
+		return "return-err-of-an-earlier-call"
+	case "wrapped":
+		return "return-wrapped"
+	case "ne":
+		return "return-ErrNotExist"
+	}
+	return "return-?"
+}
+
+// rfAction: a straight-line rest of the function as `write+write+return-…`; ok = it is one
+func rfAction(n *rfN, call string) (string, bool) {
+	toks := []string{}
+	for {
+		switch n.kind {
+		case "call":
+			switch {
+			case n.deferred:
+				return "", false
+			case n.isW && !n.fall:
+				toks = append(toks, n.name)
+			default:
+				// a fallible call inside an action: only when its error is never looked at
+				var et, ret int
+				rt := map[int]bool{}
+				rfRefs(n.next, n.id, &et, rt, &ret)
+				if et > 0 || ret > 0 || len(rt) > 0 {
+					return "", false
+				}
+				toks = append(toks, n.name+"/ignored")
+			}
+			n = n.next
+		case "exit":
+			toks = append(toks, rfShape(n.vals, call))
+			return strings.Join(toks, "+"), true
+		case "dec", "opq":
+			if n.t.ser() != n.f.ser() {
+				return "", false
+			}
+			n = n.t
+		default:
+			return "", false
+		}
+	}
+}
+
+type rfCellKey struct {
+	e uint8
+	r uint8 // 0 when the other result is not tested
+}
+
+// rfRules: the decision table of a call (cell -> action, "" = goes on) as a first-match rule list.  Candidates in order of preference; a
+// candidate applies when the cells it still covers all have the same action (not "goes on"); it is passed over when a later candidate with the
+// same action covers strictly more.  The list is a function of the table alone.
+func rfRules(table map[rfCellKey]string, withRes bool) (string, bool) {
+	type cand struct {
+		text string
+		in   func(k rfCellKey) bool
+		res  bool
+	}
+	cands := []cand{
+		{"err == ErrNotExist", func(k rfCellKey) bool { return k.e == rfENE }, false},
+		{"err != nil", func(k rfCellKey) bool { return k.e != rfENil }, false},
+		{"err == nil", func(k rfCellKey) bool { return k.e == rfENil }, false},
+		{"res == nil", func(k rfCellKey) bool { return k.r == rfRNil }, true},
+		{"err != nil || res == nil", func(k rfCellKey) bool { return k.e != rfENil || k.r == rfRNil }, true},
+		{"err != nil && err != ErrNotExist", func(k rfCellKey) bool { return k.e == rfEWrapNE || k.e == rfEOther }, false},
+		{"Is(err,ErrNotExist)", func(k rfCellKey) bool { return k.e == rfENE || k.e == rfEWrapNE }, false},
+		{"err != nil && !Is(err,ErrNotExist)", func(k rfCellKey) bool { return k.e == rfEOther }, false},
+		{"Is(err,ErrNotExist) && err != ErrNotExist", func(k rfCellKey) bool { return k.e == rfEWrapNE }, false},
+		{"err != ErrNotExist", func(k rfCellKey) bool { return k.e != rfENE }, false},
+		{"res != nil", func(k rfCellKey) bool { return k.r == rfRNon }, true},
+		{"err == nil && res == nil", func(k rfCellKey) bool { return k.e == rfENil && k.r == rfRNil }, true},
+		{"err != nil && res == nil", func(k rfCellKey) bool { return k.e != rfENil && k.r == rfRNil }, true},
+		{"err != nil && res != nil", func(k rfCellKey) bool { return k.e != rfENil && k.r == rfRNon }, true},
+		{"else", func(k rfCellKey) bool { return true }, false},
+	}
+	remaining := map[rfCellKey]bool{}
+	for k := range table {
+		remaining[k] = true
+	}
+	pending := func() bool {
+		for k := range remaining {
+			if table[k] != "" {
+				return true
+			}
+		}
+		return false
+	}
+	// eff: the cells a candidate still covers and their common action ("" with ok=false when they differ or one goes on)
+	eff := func(c cand) (map[rfCellKey]bool, string, bool) {
+		if c.res && !withRes {
+			return nil, "", false
+		}
+		set := map[rfCellKey]bool{}
+		act := ""
+		for k := range remaining {
+			if !c.in(k) {
+				continue
+			}
+			if table[k] == "" || (act != "" && table[k] != act) {
+				return nil, "", false
+			}
+			act = table[k]
+			set[k] = true
+		}
+		return set, act, len(set) > 0
+	}
+	rules := []string{}
+	for pending() {
+		picked := -1
+		for i, c := range cands {
+			set, act, ok := eff(c)
+			if !ok {
+				continue
+			}
+			dominated := false
+			for j, d := range cands {
+				if j == i {
 					continue
 				}
-				if eb, ok := el.(*ast.BlockStmt); ok {
-					parts = append(parts, "else => "+c.action(eb.List, errObj))
+				s2, a2, ok2 := eff(d)
+				if ok2 && a2 == act && len(s2) > len(set) {
+					sub := true
+					for k := range set {
+						if !s2[k] {
+							sub = false
+						}
+					}
+					if sub {
+						dominated = true
+					}
 				}
+			}
+			if !dominated {
+				picked = i
 				break
 			}
+		}
+		if picked < 0 {
+			return "", false
+		}
+		set, act, _ := eff(cands[picked])
+		rules = append(rules, cands[picked].text+" => "+act)
+		for k := range set {
+			delete(remaining, k)
+		}
+	}
+	return strings.Join(rules, " ; "), true
+}
+
+func rfCount(items []string) int {
+	n := 0
+	for _, it := range items {
+		if strings.Contains(it, " ? ") || strings.HasPrefix(it, "w:") {
+			n++
+		}
+	}
+	return n
+}
+
+// render: the tree as the flat skeleton
+func (x *rfX) render(n *rfN) []string {
+	switch n.kind {
+	case "unknown":
+		fmt.Fprintln(os.Stderr, "rest_fault: not understood:", n.why)
+		return []string{"unknown"}
+	case "dec":
+		if n.t.ser() == n.f.ser() {
+			return x.render(n.t)
+		}
+		return []string{"unknown"} // a test on a call that is not above it
+	case "exit":
+		switch sh := rfShape(n.vals, ""); {
+		case len(n.vals) == 0:
+			return nil
+		case n.vals[len(n.vals)-1].k == "nil":
+			return nil // `return nil` / `return x, nil`: the plain end of the function
+		case sh == "return-wrapped", n.vals[len(n.vals)-1].k == "wrapped":
+			return []string{"return-wrapped"}
+		case n.vals[len(n.vals)-1].k == "err":
+			return []string{"return-err"}
+		default:
+			return []string{"return-?"}
+		}
+	case "opq":
+		if n.t.ser() == n.f.ser() {
+			return x.render(n.t) // a branch that only logs / assigns
+		}
+		a, b := x.render(n.t), x.render(n.f)
+		// the common tail
+		i := 0
+		for i < len(a) && i < len(b) && a[len(a)-1-i] == b[len(b)-1-i] {
+			i++
+		}
+		tail := append([]string{}, a[len(a)-i:]...)
+		a, b = a[:len(a)-i], b[:len(b)-i]
+		ja, jb := strings.Join(a, "\x00"), strings.Join(b, "\x00")
+		less := func() bool { // a before b
+			if rfCount(a) != rfCount(b) {
+				return rfCount(a) < rfCount(b)
+			}
+			return ja <= jb
+		}
+		if !less() {
+			a, b = b, a
+		}
+		out := []string{}
+		switch {
+		case len(a) == 0 && len(b) == 0:
+		case len(a) == 0:
+			out = append(append(append(out, "if"), b...), "end")
+		case len(tail) == 0:
+			// both branches leave the function on their own: the lighter one is the guard, the other what follows it
+			out = append(append(append(out, "if"), a...), "end")
+			out = append(out, b...)
+		default:
+			out = append(append(append(out, "if"), a...), "else")
+			out = append(append(out, b...), "end")
+		}
+		return append(out, tail...)
+	}
+	// a call
+	name := n.name
+	if n.isW {
+		name = "w:" + name
+	}
+	if n.deferred {
+		return append([]string{name + " ? deferred"}, x.render(n.next)...)
+	}
+	if !n.fall {
+		return append([]string{name}, x.render(n.next)...)
+	}
+	var errTests, returned int
+	resTests := map[int]bool{}
+	rfRefs(n.next, n.id, &errTests, resTests, &returned)
+	if len(resTests) > 1 {
+		return []string{name + " ? unknown"}
+	}
+	resIdx, withRes := -1, false
+	for i := range resTests {
+		resIdx, withRes = i, true
+	}
+	cells := []rfCellKey{}
+	for _, e := range []uint8{rfENil, rfENE, rfEWrapNE, rfEOther} {
+		if withRes {
+			cells = append(cells, rfCellKey{e, rfRNil}, rfCellKey{e, rfRNon})
+		} else {
+			cells = append(cells, rfCellKey{e, 0})
+		}
+	}
+	rest := map[rfCellKey]*rfN{}
+	for _, c := range cells {
+		r := map[int]uint8{}
+		if withRes {
+			r[resIdx] = c.r
+		}
+		rest[c] = rfSimplify(rfSpecialise(n.next, n.id, c.e, r))
+	}
+	okCell := rfCellKey{rfENil, 0}
+	if withRes {
+		okCell.r = rfRNon
+	}
+	cont := rest[okCell]
+	same := true
+	for _, c := range cells {
+		if rest[c].ser() != cont.ser() {
+			same = false
+		}
+	}
+	// the call's error IS the function's error, whatever it is: every outcome leaves at once, with the error (nil where it is known to be nil)
+	handsOn, dropsRest, leaves := true, true, true
+	for _, c := range cells {
+		r := rest[c]
+		if r.kind != "exit" || len(r.vals) == 0 {
+			leaves = false
+			break
+		}
+		last := r.vals[len(r.vals)-1]
+		if !(last.k == "err" && last.call == n.id) && !(last.k == "nil" && c.e == rfENil) {
+			leaves = false
+			break
+		}
+		if len(r.vals) != n.nres || n.errIdx != n.nres-1 {
+			handsOn = false
+		}
+		for i, v := range r.vals[:len(r.vals)-1] {
+			if !(v.k == "res" && v.call == n.id && v.idx == i) {
+				handsOn = false
+			}
+			if v.k != "nil" {
+				dropsRest = false
+			}
+		}
+	}
+	if leaves && handsOn {
+		return []string{name + " ? tail"}
+	}
+	if leaves && dropsRest {
+		return []string{name + " ? then return-err"}
+	}
+	if same {
+		// no outcome of the call changes what follows
+		switch {
+		case errTests == 0 && returned == 0 && len(resTests) == 0:
+			return append([]string{name + " ? ignored"}, x.render(cont)...)
+		case errTests > 0 && returned == 0:
+			return append([]string{name + " ? err == nil => assign ; else => assign"}, x.render(cont)...)
+		}
+		return append([]string{name + " ? unknown"}, x.render(cont)...)
+	}
+	table := map[rfCellKey]string{}
+	for _, c := range cells {
+		if rest[c].ser() == cont.ser() {
+			table[c] = ""
 			continue
-		case *ast.SwitchStmt:
-			if v.Init != nil {
-				return strings.Join(parts, " ; "), used
-			}
-			mentions := false
-			sub := []string{}
-			for _, cc := range v.Body.List {
-				cl := cc.(*ast.CaseClause)
-				if cl.List == nil {
-					sub = append(sub, "else => "+c.action(cl.Body, errObj))
-					continue
-				}
-				for _, ex := range cl.List {
-					var cs string
-					var m bool
-					if v.Tag != nil { // switch err { case X: }
-						t, tm := c.cond(v.Tag, errObj, resObjs)
-						x, _ := c.cond(ex, errObj, resObjs)
-						cs, m = t+" == "+x, tm
-					} else {
-						cs, m = c.cond(ex, errObj, resObjs)
-					}
-					mentions = mentions || m
-					sub = append(sub, cs+" => "+c.action(cl.Body, errObj))
-				}
-			}
-			if !mentions {
-				return strings.Join(parts, " ; "), used
-			}
-			parts = append(parts, sub...)
-			used++
-			continue
-		case *ast.ReturnStmt:
-			if len(parts) == 0 && len(v.Results) > 0 {
-				if o := c.objOf(v.Results[len(v.Results)-1]); o != nil && o == errObj {
-					return "then " + c.returnShape(v, errObj), 1
-				}
-			}
 		}
-		break
+		act, ok := rfAction(rest[c], n.id)
+		if !ok {
+			return append([]string{name + " ? unknown"}, x.render(cont)...)
+		}
+		table[c] = act
 	}
-	return strings.Join(parts, " ; "), used
+	rules, ok := rfRules(table, withRes)
+	if !ok {
+		rules = "unknown"
+	}
+	return append([]string{name + " ? " + rules}, x.render(cont)...)
 }
 
-// a fallible call found in an assignment / if-init: emit its step; returns how many of the following statements were consumed
-func (c *rfCtx) step(ce *ast.CallExpr, lhs []ast.Expr, rest []ast.Stmt, ownIf *ast.IfStmt) int {
-	errIdx, n, _ := c.fallible(ce)
-	name := c.callee(ce)
-	if c.passesW(ce) {
-		name = "w:" + c.wName(ce)
-	}
-	if ef, roles := c.helperOf(ce); ef != nil {
-		c.splice(ef, roles)
-	}
-	var errObj types.Object
-	resObjs := map[types.Object]bool{}
-	if len(lhs) == n {
-		for i, l := range lhs {
-			if id, ok := l.(*ast.Ident); ok && id.Name == "_" {
-				continue
-			}
-			o := c.objOf(l)
-			if o == nil {
-				continue
-			}
-			if i == errIdx {
-				errObj = o
-			} else {
-				resObjs[o] = true
-			}
-		}
-	}
-	if errObj == nil {
-		c.emit(name + " ? ignored")
-		return 0
-	}
-	if ownIf != nil {
-		cs, _ := c.cond(ownIf.Cond, errObj, resObjs)
-		r := cs + " => " + c.action(ownIf.Body.List, errObj)
-		if eb, ok := ownIf.Else.(*ast.BlockStmt); ok {
-			r += " ; else => " + c.action(eb.List, errObj)
-		} else if ownIf.Else != nil {
-			r += " ; else => ?"
-		}
-		c.emit(name + " ? " + r)
-		return 0
-	}
-	r, used := c.reactions(rest, errObj, resObjs)
-	if r == "" {
-		r = "unknown"
-	}
-	c.emit(name + " ? " + r)
-	return used
-}
-
-func (c *rfCtx) block(list []ast.Stmt) {
-	for i := 0; i < len(list); i++ {
-		st := list[i]
-		switch v := st.(type) {
-		case *ast.AssignStmt:
-			if len(v.Rhs) == 1 {
-				if ce, ok := v.Rhs[0].(*ast.CallExpr); ok {
-					if _, _, f := c.fallible(ce); f {
-						i += c.step(ce, v.Lhs, list[i+1:], nil)
-						continue
-					}
-					if c.passesW(ce) {
-						c.emit("w:" + c.wName(ce))
-						continue
-					}
-					if ef, roles := c.helperOf(ce); ef != nil {
-						c.splice(ef, roles)
-					}
-				}
-			}
-		case *ast.ExprStmt:
-			if ce, ok := v.X.(*ast.CallExpr); ok {
-				if ef, roles := c.helperOf(ce); ef != nil {
-					c.splice(ef, roles)
-					continue
-				}
-				if c.passesW(ce) {
-					c.emit("w:" + c.wName(ce))
-					continue
-				}
-				if _, _, f := c.fallible(ce); f {
-					c.emit(c.callee(ce) + " ? ignored")
-				}
-			}
-		case *ast.DeferStmt:
-			if _, _, f := c.fallible(v.Call); f {
-				c.emit(c.callee(v.Call) + " ? deferred")
-			}
-		case *ast.ReturnStmt:
-			for _, r := range v.Results {
-				if ce, ok := r.(*ast.CallExpr); ok {
-					if ef, roles := c.helperOf(ce); ef != nil {
-						c.splice(ef, roles)
-						continue
-					}
-					_, _, f := c.fallible(ce)
-					if nm := c.callee(ce); nm == "fmt.Errorf" || nm == "errors.New" {
-						c.emit("return-wrapped")
-						continue
-					}
-					switch {
-					case c.passesW(ce) && f:
-						c.emit("w:" + c.wName(ce) + " ? tail")
-					case c.passesW(ce):
-						c.emit("w:" + c.wName(ce))
-					case f:
-						c.emit(c.callee(ce) + " ? tail")
-					}
-				}
-			}
-		case *ast.IfStmt:
-			if as, ok := v.Init.(*ast.AssignStmt); ok && len(as.Rhs) == 1 {
-				if ce, ok := as.Rhs[0].(*ast.CallExpr); ok {
-					if _, _, f := c.fallible(ce); f {
-						c.step(ce, as.Lhs, nil, v)
-						continue
-					}
-				}
-			}
-			// a plain condition (the decoded body's flag, a bounds test): both branches are part of the skeleton
-			c.emit("if")
-			c.block(v.Body.List)
-			if eb, ok := v.Else.(*ast.BlockStmt); ok {
-				c.emit("else")
-				c.block(eb.List)
-			} else if v.Else != nil {
-				c.emit("unknown")
-			}
-			c.emit("end")
-		case *ast.ForStmt:
-			c.block(v.Body.List)
-		case *ast.RangeStmt:
-			c.block(v.Body.List)
-		case *ast.BlockStmt:
-			c.block(v.List)
-		case *ast.SwitchStmt, *ast.TypeSwitchStmt, *ast.SelectStmt, *ast.GoStmt, *ast.LabeledStmt:
-			c.emit("unknown")
-		}
-	}
-}
-
-// skeleton of a declared function; recvHandler: the receiver is the handler value (web.Handler.ServeHTTP)
-func rfSkeleton(w *entWorld, rel, recvType, name string) []string {
+// rfFind: the declaration of a function (recvType "") or method of a package of the repository
+func rfFind(w *entWorld, rel, recvType, name string) (*entPkg, *ast.FuncDecl) {
 	p := w.pkgs[entModule+"/"+rel]
 	if p == nil || p.tp == nil {
-		return []string{"unknown"}
+		return nil, nil
 	}
 	for _, f := range p.files {
 		for _, d := range f.Decls {
@@ -697,41 +1908,66 @@ func rfSkeleton(w *entWorld, rel, recvType, name string) []string {
 					continue
 				}
 			}
-			c := &rfCtx{w: w, p: p, rw: map[types.Object]bool{}, ctx: map[types.Object]bool{}}
-			if fd.Recv != nil && len(fd.Recv.List[0].Names) == 1 {
-				if o := p.info.Defs[fd.Recv.List[0].Names[0]]; o != nil {
-					if n := rfNamed(o.Type()); n != nil && n.Obj().Name() == "Handler" {
-						c.recv = o
-					}
-				}
-			}
-			for _, fl := range fd.Type.Params.List {
-				for _, n := range fl.Names {
-					o := p.info.Defs[n]
-					if o == nil {
-						continue
-					}
-					if nt := rfNamed(o.Type()); nt != nil && nt.Obj().Pkg() != nil {
-						if nt.Obj().Pkg().Path() == "net/http" && nt.Obj().Name() == "ResponseWriter" {
-							c.rw[o] = true
-						}
-						if strings.HasSuffix(nt.Obj().Pkg().Path(), "/pkg/server/web") && nt.Obj().Name() == "Context" {
-							c.ctx[o] = true
-						}
-					}
-				}
-			}
-			if c.usesWOtherwise(fd.Body) {
-				return []string{"unknown"}
-			}
-			c.block(fd.Body.List)
-			if len(c.out) == 0 {
-				return []string{"nothing"}
-			}
-			return c.out
+			return p, fd
 		}
 	}
-	return []string{"unknown"}
+	return p, nil
+}
+
+// skeleton of a declared function
+func rfSkeleton(w *entWorld, rel, recvType, name string) []string {
+	p, fd := rfFind(w, rel, recvType, name)
+	if p == nil || fd == nil {
+		return []string{"unknown"}
+	}
+	x := &rfX{rfCtx: rfCtx{w: w, p: p}, events: map[*types.Func]int{}}
+	st := &rfSt{vars: map[types.Object]rfV{}, cons: map[string]rfCell{}}
+	if fd.Recv != nil && len(fd.Recv.List[0].Names) == 1 {
+		if o := p.info.Defs[fd.Recv.List[0].Names[0]]; o != nil {
+			if n := rfNamed(o.Type()); n != nil && n.Obj().Name() == "Handler" {
+				x.recv = o
+			}
+		}
+	}
+	for _, fl := range fd.Type.Params.List {
+		for _, n := range fl.Names {
+			o := p.info.Defs[n]
+			if o == nil {
+				continue
+			}
+			switch {
+			case rfIsRW(o.Type()):
+				st.vars[o] = rfV{k: "w"}
+			case rfIsWebContext(o.Type()):
+				st.vars[o] = rfV{k: "ctx"}
+			}
+		}
+	}
+	fr := &rfFrame{ret: func(st *rfSt, vals []rfV) *rfN { return &rfN{kind: "exit", vals: vals} }}
+	if fd.Type.Results != nil {
+		for _, fl := range fd.Type.Results.List {
+			if len(fl.Names) == 0 {
+				fr.nres++
+			}
+			for _, n := range fl.Names {
+				fr.nres++
+				o := p.info.Defs[n]
+				fr.results = append(fr.results, o)
+				if o != nil {
+					st.vars[o] = rfZero(o.Type())
+				}
+			}
+		}
+	}
+	if x.escapes(fd.Body, st) {
+		return []string{"unknown"}
+	}
+	tree := x.block(fd.Body.List, st, fr, func(st *rfSt) *rfN { return x.fallOff(st, fr) })
+	out := x.render(rfSimplify(tree))
+	if len(out) == 0 {
+		return []string{"nothing"}
+	}
+	return out
 }
 
 // rfTriple: a skeleton entry as (kind, callee, reaction): kind = mgr (a message.Manager method, callee = its name) | store (a method of
@@ -750,8 +1986,12 @@ func rfTriple(e string) string {
 		kind, name = "mgr", name[len("Manager."):]
 	case strings.HasPrefix(name, "Store.") || strings.HasPrefix(name, "Message.") || name == "enmime.ReadEnvelope":
 		kind = "store"
-	case name == "if" || name == "else" || name == "end" || name == "return-wrapped" || name == "unknown" || name == "nothing":
+	case name == "if" || name == "else" || name == "end" || strings.HasPrefix(name, "return-") || name == "unknown" || name == "nothing":
 		kind = "ctl"
+	}
+	if reaction == "unknown" {
+		// fail closed: `skeletons_known` looks at the callee
+		return "(" + leanStr("ctl") + ", " + leanStr("unknown") + ", " + leanStr(name) + ")"
 	}
 	return "(" + leanStr(kind) + ", " + leanStr(name) + ", " + leanStr(reaction) + ")"
 }
@@ -764,65 +2004,89 @@ func rfTriples(l []string) string {
 	return "[" + strings.Join(p, ", ") + "]"
 }
 
-// rfNotExistTests: every comparison of a value with storage.ErrNotExist in the function, in source order: "==" | "!=" | "Is" (errors.Is) |
-// "case" (a tagged switch) | "other" (ErrNotExist used in any other way)
+// rfNotExistTests: HOW the function (and the unexported functions of its package it reaches) uses storage.ErrNotExist, as a sorted set:
+// "==" (a comparison of identity: `==`, `!=`, a case of a tagged switch — the same test spelled three ways) | "Is" (errors.Is) | "other"
+// (ErrNotExist used in any other way: returned, assigned, handed to a function)
 func rfNotExistTests(w *entWorld, rel, name string) []string {
-	p := w.pkgs[entModule+"/"+rel]
-	if p == nil || p.tp == nil {
+	p, fd := rfFind(w, rel, "", name)
+	if p == nil || fd == nil {
 		return []string{"unknown"}
 	}
-	c := &rfCtx{w: w, p: p}
-	for _, f := range p.files {
-		for _, d := range f.Decls {
-			fd, ok := d.(*ast.FuncDecl)
-			if !ok || fd.Name.Name != name || fd.Body == nil || fd.Recv != nil {
-				continue
-			}
-			res := []string{}
-			claimed := map[ast.Expr]bool{}
-			ast.Inspect(fd.Body, func(n ast.Node) bool {
-				switch v := n.(type) {
-				case *ast.BinaryExpr:
-					for _, side := range []ast.Expr{v.X, v.Y} {
-						if c.isErrNotExist(side) {
-							claimed[side] = true
-							if v.Op == token.EQL || v.Op == token.NEQ {
-								res = append(res, v.Op.String())
-							} else {
-								res = append(res, "other")
-							}
-						}
-					}
-				case *ast.CallExpr:
-					for _, a := range v.Args {
-						if c.isErrNotExist(a) {
-							claimed[a] = true
-							if c.callee(v) == "errors.Is" {
-								res = append(res, "Is")
-							} else {
-								res = append(res, "other")
-							}
-						}
-					}
-				case *ast.CaseClause:
-					for _, ex := range v.List {
-						if c.isErrNotExist(ex) {
-							claimed[ex] = true
-							res = append(res, "case")
-						}
-					}
-				case *ast.SelectorExpr:
-					if c.isErrNotExist(v) && !claimed[v] {
-						res = append(res, "other")
-					}
-					return false
-				}
-				return true
-			})
-			return res
+	x := &rfX{rfCtx: rfCtx{w: w, p: p}, events: map[*types.Func]int{}}
+	kinds := map[string]bool{}
+	seen := map[*ast.FuncDecl]bool{}
+	var scan func(d *ast.FuncDecl)
+	scan = func(d *ast.FuncDecl) {
+		if seen[d] {
+			return
 		}
+		seen[d] = true
+		claimed := map[ast.Expr]bool{}
+		ast.Inspect(d.Body, func(n ast.Node) bool {
+			switch v := n.(type) {
+			case *ast.BinaryExpr:
+				for _, side := range []ast.Expr{rfUnparen(v.X), rfUnparen(v.Y)} {
+					if x.isErrNotExist(side) {
+						claimed[side] = true
+						if v.Op == token.EQL || v.Op == token.NEQ {
+							kinds["=="] = true
+						} else {
+							kinds["other"] = true
+						}
+					}
+				}
+			case *ast.CallExpr:
+				for _, a := range v.Args {
+					a = rfUnparen(a)
+					if x.isErrNotExist(a) {
+						claimed[a] = true
+						if x.callee(v) == "errors.Is" {
+							kinds["Is"] = true
+						} else {
+							kinds["other"] = true
+						}
+					}
+				}
+				if ef := x.inPkgFunc(v); ef != nil && !ef.obj.Exported() {
+					scan(ef.decl)
+				}
+			case *ast.SwitchStmt:
+				if v.Tag == nil {
+					return true
+				}
+				for _, cc := range v.Body.List {
+					for _, ex := range cc.(*ast.CaseClause).List {
+						ex = rfUnparen(ex)
+						if x.isErrNotExist(ex) {
+							claimed[ex] = true
+							kinds["=="] = true
+						}
+					}
+				}
+				if t := rfUnparen(v.Tag); x.isErrNotExist(t) {
+					claimed[t] = true
+					kinds["=="] = true
+				}
+			case *ast.SelectorExpr:
+				if x.isErrNotExist(v) && !claimed[v] {
+					kinds["other"] = true
+				}
+				return false
+			case *ast.Ident:
+				if x.isErrNotExist(v) && !claimed[v] {
+					kinds["other"] = true
+				}
+			}
+			return true
+		})
 	}
-	return []string{"unknown"}
+	scan(fd)
+	res := []string{}
+	for k := range kinds {
+		res = append(res, k)
+	}
+	sort.Strings(res)
+	return res
 }
 
 func extractRestFault() {
@@ -843,7 +2107,7 @@ func extractRestFault() {
 		return
 	}
 	g.def("wrapper", "List (String × String × String)", rfTriples(rfSkeleton(w, "pkg/server/web", "Handler", "ServeHTTP")),
-		"web.Handler.ServeHTTP: the fallible calls and the writes to the ResponseWriter in source order as (kind, callee, reaction to its error); kind = mgr | store | w | call | ctl; reactions: `<cond> => <action> ; …` over err / res / ErrNotExist / nil, `tail` (returned as it is), `ignored`, `then return-err` (harness/cmd/extract/rest_fault.go has the notation)")
+		"web.Handler.ServeHTTP: the fallible calls and the writes to the ResponseWriter in execution order as (kind, callee, reaction to its error); kind = mgr | store | w | call | ctl; reactions: `<cond> => <action> ; …` over err / res / ErrNotExist / nil (the decision table of the call as a first-match rule list), `tail` (the call's results are the function's), `ignored`, `then return-err` (harness/cmd/extract/rest_fault.go has the notation)")
 	rows := func(rel, recv string, names []string) []string {
 		p := []string{}
 		for _, n := range names {
@@ -865,5 +2129,5 @@ func extractRestFault() {
 		ne = append(ne, "\n  ("+leanStr(n)+", "+strList(rfNotExistTests(w, "pkg/webui", n))+")")
 	}
 	g.def("notExistTests", "List (String × List String)", "["+strings.Join(ne, ",")+"]",
-		"per handler every use of storage.ErrNotExist, in source order: == | != (comparison of identity) | Is (errors.Is) | case | other")
+		"per handler HOW storage.ErrNotExist is used in it and in the unexported functions of its package it reaches, as a sorted set: == (a comparison of identity: ==, != or a case of a tagged switch) | Is (errors.Is) | other")
 }
